@@ -78,9 +78,15 @@ from translate_detect import (TranslateError, NeedsHoist, _paren, _close, _comme
 D = "lib_trainer/detection_rules/"
 
 # ------------------------------------------------------------------ new types
-CURSOR, TRIE, ZLIST = "cursor", "trie", "zlist"
-TD.EXTRA_COQ_TYPES.update({CURSOR: "cursor", TRIE: "trie", ZLIST: "list Z"})
-TD.TYPE_RANK.update({CURSOR: 3.5, TRIE: 8.5, ZLIST: 8.6})
+CURSOR, TRIE, ZLIST, OSTRLIST = "cursor", "trie", "zlist", "ostrlist"
+TD.EXTRA_COQ_TYPES.update({CURSOR: "cursor", TRIE: "trie", ZLIST: "list Z", OSTRLIST: "list (option Str.str)"})
+TD.TYPE_RANK.update({CURSOR: 3.5, TRIE: 8.5, ZLIST: 8.6, OSTRLIST: 7.5})
+# lists whose elements are "str or None" (what website_detection / email_detection collect)
+TD.LIST_OF[OPT(STR)] = OSTRLIST
+TD.ELEM[OSTRLIST] = OPT(STR)
+TD.LISTS = tuple(TD.LISTS) + (OSTRLIST,)
+TD.CONCRETE_LISTS.append(OSTRLIST)
+LISTS = TD.LISTS
 LOOKUP = "self_lookup"            # the name the trie `self.lookup` has in the generated text
 KEYERROR_HEADS = ("call (t_step ", "call (t_step_s ", "call (t_get_count ")
 
@@ -397,6 +403,13 @@ class FT2(TD.FunctionTranslator):
                 return self.wrap(H, ind, text)
             if self.is_cursor(t, env) or (isinstance(v, ast.Name) and env.types.get(v.id) == CURSOR):
                 self.fail(s, "a trie cursor may only be bound by `x = self.lookup` and moved by `x = x[key]`")
+            # x = get_tld_list(): the value of a table function (a fresh list nobody else refers to, but
+            # the function only reads it: not owned)
+            if isinstance(v, ast.Call) and isinstance(v.func, ast.Name) and v.func.id in self.externals \
+                    and v.func.id not in env.types:
+                text, ty = self.expr(v, env, None)
+                self.bind_var(s, x, ty, env)
+                return self.line(ind, "let %s := %s in" % (x, text), s) + self.block(rest, env, ctx, ind, at)
             # x = None
             if isinstance(v, ast.Constant) and v.value is None:
                 ty = self.opttypes.get(x)
@@ -491,7 +504,7 @@ class FT2(TD.FunctionTranslator):
                 and isinstance(c.func.value, ast.Name) and len(c.args) == 2 and not c.keywords:
             x = c.func.value.id
             tx = env.types.get(x)
-            if tx not in (SECLIST, STRLIST) or x not in env.owned:
+            if tx not in TD.CONCRETE_LISTS or x not in env.owned:
                 self.fail(s, "insert is supported on a list the function owns only")
             if not self.terminates(rest):
                 self.fail(s, "insert is supported only where every path from there ends in `return`")
@@ -503,6 +516,28 @@ class FT2(TD.FunctionTranslator):
             e = self.coerce(s, e, te, ELEM[tx], H)
             out = self.line(ind, "let %s := linsert %s %s %s in" % (x, x, _paren(i), _paren(e)), s)
             return self.wrap(H, ind, out + self.block(rest, env, ctx, ind, at))
+        if isinstance(c, ast.Call) and isinstance(c.func, ast.Attribute) and c.func.attr == "append" \
+                and isinstance(c.func.value, ast.Name) and len(c.args) == 1 and not c.keywords:
+            x = c.func.value.id
+            tx = env.types.get(x)
+            uid = self.uid
+            try:
+                _, te = self.expr(c.args[0], env, [])
+            finally:
+                self.uid = uid
+            if te == OPT(STR) and tx in (EMPTYLIST, OSTRLIST) and x in env.owned:
+                # a list that collects "str or None" values
+                H = []
+                e, te = self.expr(c.args[0], env, H)
+                if tx == EMPTYLIST:
+                    tx = self.refine_list(s, x, te, env)
+                out = self.line(ind, "let %s := append %s %s in" % (x, x, _paren(e)), s)
+                return self.wrap(H, ind, out + self.block(rest, env, ctx, ind, at))
+            if tx == OSTRLIST and te == STR and x in env.owned:
+                H = []
+                e, te = self.expr(c.args[0], env, H)
+                out = self.line(ind, "let %s := append %s (Some %s) in" % (x, x, _paren(e)), s)
+                return self.wrap(H, ind, out + self.block(rest, env, ctx, ind, at))
         return super().effect(s, rest, env, ctx, ind, at)
 
     def try_(self, s, rest, env, ctx, ind, at):
@@ -759,9 +794,85 @@ def render_mw(repo=None):
     return MW_HEAD + "\n".join(parts) + "\nEnd DetectMwGen.\n"
 
 
+# ------------------------------------------------------------------ e-mail and website detectors
+DRIVE_FUEL = "drive_fuel {0}"
+EMAIL_FILE = D + "email_detection.py"
+EMAIL_SPECS = [
+    dict(file=EMAIL_FILE, py="detect_email", coq="py_detect_email",
+         params=[SECTION], ret=TUP(PV, OPT(STR), OPT(STR))),
+    dict(file=EMAIL_FILE, py="email_detection", coq="py_email_detection",
+         params=[SECLIST], mutates=[0], ret=TUP(STRLIST, OSTRLIST), fuel=DRIVE_FUEL),
+]
+WEB_FILE = D + "website_detection.py"
+WEB_SPECS = [
+    dict(file=WEB_FILE, py="detect_website", coq="py_detect_website",
+         params=[SECTION], ret=TUP(PV, OPT(STR), OPT(STR), OPT(STR)), fuel="S (S (length (fst {0})))"),
+    dict(file=WEB_FILE, py="website_detection", coq="py_website_detection",
+         params=[SECLIST], mutates=[0], ret=TUP(STRLIST, OSTRLIST, OSTRLIST), fuel=DRIVE_FUEL),
+]
+TLD_EXTERNALS = {"get_tld_list": ("get_tld_list", STRLIST)}
+TLD_IMPORTS = {"get_tld_list": ".tld_list"}
+
+FN_HEAD = """(* GENERATED by harness/translate_detect2.py from the Python source of the current
+   working tree (%(file)s) on every run of a check.  Do not edit.
+   Each definition is the line-by-line image of one Python function in the subset
+   documented in the translator; the numbers in the comments are source lines.
+   theories/%(proofs)s proves these definitions equal to the hand-written
+   models of theories/Detect.v. *)
+From Coq Require Import List ZArith NArith Bool.
+From Pcfg Require Import Str Multiword Detect DetectRt DetectRt2.
+Import ListNotations.
+Open Scope Z_scope.
+
+Section %(section)s.
+(* what the Python runtime decides about one character (oracles, as in Detect.v) *)
+Variables isalpha isdigit isupper : N -> bool.
+Variable lower_c : N -> Str.str.
+Notation lower := (Multiword.lower lower_c).
+%(extra)s
+"""
+TLD_VAR = "(* the value of get_tld_list() (lib_trainer/detection_rules/tld_list.py; gen/Consts_gen.tld_list) *)\nVariable get_tld_list : list Str.str.\n"
+
+
+def render_functions(repo, rel, specs, section, proofs, extra, externals, imports):
+    repo = repo or common.REPO
+    path, tree = load(repo, rel)
+    names = [s["py"] for s in specs]
+    old = set(TD.BUILTINS_USED)
+    TD.BUILTINS_USED.add("range")
+    try:
+        defs = check_module(path, tree, names)
+    finally:
+        TD.BUILTINS_USED.clear()
+        TD.BUILTINS_USED.update(old)
+    if imports:
+        check_imports(path, tree, imports)
+    parts, done = [], {}
+    for spec in specs:
+        fn = defs.get(spec["py"])
+        if not isinstance(fn, ast.FunctionDef):
+            raise TranslateError("%s: def %s not found" % (path, spec["py"]))
+        parts.append(FT2(path, rel, fn, spec, dict(done), externals=externals).translate())
+        done[spec["py"]] = spec
+    head = FN_HEAD % dict(file=rel, proofs=proofs, section=section, extra=extra)
+    return head + "\n".join(parts) + "\nEnd %s.\n" % section
+
+
+def render_email(repo=None):
+    return render_functions(repo, EMAIL_FILE, EMAIL_SPECS, "DetectEmailGen", "DetectGenProofsEmail.v", TLD_VAR,
+                            TLD_EXTERNALS, TLD_IMPORTS)
+
+
+def render_web(repo=None):
+    return render_functions(repo, WEB_FILE, WEB_SPECS, "DetectWebGen", "DetectGenProofsWeb.v", TLD_VAR,
+                            TLD_EXTERNALS, TLD_IMPORTS)
+
+
 # ------------------------------------------------------------------ output
 GROUPS = {
     "mw": (os.path.join("gen", "DetectMw_gen.v"), render_mw),
+    "email": (os.path.join("gen", "DetectEmail_gen.v"), render_email),
+    "web": (os.path.join("gen", "DetectWeb_gen.v"), render_web),
 }
 
 
